@@ -120,10 +120,98 @@ def char_code(c):
     return z3.IntVal(ord(c)) if isinstance(c, str) else c
 
 
+def _concat_parts(x):
+    parts = []
+
+    def flat(t):
+        if z3.is_app(t) and t.decl().kind() == z3.Z3_OP_SEQ_CONCAT:
+            for c in t.children():
+                flat(c)
+        else:
+            parts.append(t)
+    flat(x)
+    return parts
+
+
+def fast_entails(I, cond):
+    """True if the fact base shows `cond` holds, None if it cannot tell (never False)."""
+    try:
+        c = z3.simplify(cond)
+        if z3.is_true(c):
+            return True
+        if z3.is_and(c):
+            rs = [fast_entails(I, x) for x in c.children()]
+            return True if all(r is True for r in rs) else None
+        if z3.is_or(c):
+            return True if any(fast_entails(I, x) is True for x in c.children()) else None
+        if z3.is_not(c):
+            a = c.arg(0)
+            if z3.is_app(a) and a.num_args() == 2 and z3.is_string_value(a.arg(0) if a.decl().kind() != z3.Z3_OP_SEQ_CONTAINS else a.arg(1)):
+                k = a.decl().kind()
+                if k == z3.Z3_OP_SEQ_CONTAINS:
+                    needle = _pystr(a.arg(1))
+                    for p in _concat_parts(a.arg(0)):
+                        if z3.is_string_value(p):
+                            if needle in _pystr(p):
+                                return None
+                        else:
+                            f = I.fact("nocontain", p)
+                            if not f or not any(n and n in needle for n in f):
+                                return None
+                    # no part contains (a piece of) the needle; a needle straddling two parts is only excluded for
+                    # single-character needles
+                    return True if len(needle) == 1 else None
+                if k == z3.Z3_OP_SEQ_SUFFIX:
+                    ch = _pystr(a.arg(0))
+                    if len(ch) != 1:
+                        return None
+                    for p in reversed(_concat_parts(a.arg(1))):
+                        if z3.is_string_value(p):
+                            t = _pystr(p)
+                            if t:
+                                return True if not t.endswith(ch) else None
+                            continue
+                        f = I.fact("nocontain", p)
+                        if not f or ch not in f:
+                            return None
+                        ml = I.fact("minlen", p)
+                        if ml:
+                            return True
+                    return None
+            return None
+        if z3.is_app(c) and c.num_args() == 2 and z3.is_string_value(c.arg(0)):
+            k = c.decl().kind()
+            if k == z3.Z3_OP_SEQ_PREFIX:
+                want = _pystr(c.arg(0))
+                parts = _concat_parts(c.arg(1))
+                if parts and not z3.is_string_value(parts[0]):
+                    f = I.fact("prefix", parts[0])
+                    if f and any(x.startswith(want) for x in f):
+                        return True
+                return None
+            if k == z3.Z3_OP_SEQ_SUFFIX:
+                want = _pystr(c.arg(0))
+                parts = _concat_parts(c.arg(1))
+                if parts and not z3.is_string_value(parts[-1]):
+                    f = I.fact("suffix", parts[-1])
+                    if f and any(x.endswith(want) for x in f):
+                        return True
+                return None
+    except Exception:
+        return None
+    return None
+
+
+def _unesc(s):
+    return V._unescape(s)
+
+
 def entails(I, cond) -> bool:
     c = V.concrete_bool(cond)
     if c is not None:
         return c
+    if fast_entails(I, cond) is True:
+        return True
     return I._check(z3.Not(cond)) == z3.unsat
 
 
@@ -452,6 +540,16 @@ def get_slice(I, cont, lo, hi, node):
     a = z3.IntVal(0) if lo is None or V.ctor_name(z3.simplify(lo)) == "none" else norm_index(as_int(I, lo, node), n)
     b = n if hi is None or V.ctor_name(z3.simplify(hi)) == "none" else norm_index(as_int(I, hi, node), n)
     ln = z3.If(b - a < 0, 0, b - a)
+    if cn == "str" and (hi is None or V.ctor_name(z3.simplify(hi)) == "none") and lo is not None:
+        lv = z3.simplify(lo)
+        x = z3.simplify(seq)
+        if V.ctor_name(lv) == "int" and z3.is_int_value(z3.simplify(Val.i(lv))) and z3.is_app(x) and \
+                x.decl().kind() == z3.Z3_OP_SEQ_CONCAT and z3.is_string_value(x.children()[0]):
+            k = z3.simplify(Val.i(lv)).as_long()
+            head = _pystr(x.children()[0])
+            if 0 <= k <= len(head):
+                rest = ([z3.StringVal(head[k:])] if head[k:] else []) + x.children()[1:]
+                return V.VStr(z3.simplify(z3.Concat(*rest)) if len(rest) > 1 else rest[0])
     # known-shape strings: slice the character list syntactically when bounds are concrete
     if cn == "str":
         cl = char_list(seq)
@@ -838,6 +936,47 @@ def split_chars(I, cl, sep: str):
     return parts
 
 
+def segment_split(I, x, sep: str):
+    """split of a concatenation whose symbolic parts provably do not contain the separator (the concrete parts are
+    split literally).  None if some symbolic part may contain it."""
+    x = z3.simplify(x)
+    if not (z3.is_app(x) and x.decl().kind() == z3.Z3_OP_SEQ_CONCAT):
+        return None
+    parts = []
+
+    def flat(t):
+        if z3.is_app(t) and t.decl().kind() == z3.Z3_OP_SEQ_CONCAT:
+            for c in t.children():
+                flat(c)
+        else:
+            parts.append(t)
+    flat(x)
+    pieces, cur = [], []
+
+    def close():
+        if not cur:
+            pieces.append(z3.StringVal(""))
+        elif len(cur) == 1:
+            pieces.append(cur[0])
+        else:
+            pieces.append(z3.simplify(z3.Concat(*cur)))
+        cur.clear()
+    for p in parts:
+        if z3.is_string_value(p):
+            chunks = _pystr(p).split(sep)
+            for k, ch in enumerate(chunks):
+                if k:
+                    close()
+                if ch:
+                    cur.append(z3.StringVal(ch))
+        else:
+            if not entails(I, z3.Not(z3.Contains(p, z3.StringVal(sep)))):
+                return None
+            cur.append(p)
+    close()
+    return pieces
+
+
 def builtin_method(I, recv, name, args, kwargs, node, desc=None):
     sr = z3.simplify(recv)
     cn = V.ctor_name(sr)
@@ -1019,6 +1158,10 @@ def m_str_split(I, s, args, kwargs, node):
     cl = char_list(x)
     if cl is not None and psep is not None and len(psep) == 1 and maxsplit is None:
         return V.VList([V.VStr(from_chars(p)) for p in split_chars(I, cl, psep)])
+    if psep is not None and maxsplit is None and len(psep) >= 1:
+        seg = segment_split(I, x, psep)
+        if seg is not None:
+            return V.VList([V.VStr(p) for p in seg])
     if psep is not None and maxsplit == 1:
         # s.split(sep, 1): [s] if sep not in s else [before, after] at the first occurrence
         if I.choose(z3.Contains(x, sep), "split1_has_sep"):
@@ -1064,8 +1207,15 @@ def m_str_strip(I, s, args, kwargs, node):
         raise Unsupported("strip(chars) on a symbolic string", node)
     if ps is not None:
         return V.VStr(ps.strip())
-    r = strip_of(Val.s(s))
-    I.assume(z3.Length(r) <= z3.Length(Val.s(s)))
+    x = Val.s(s)
+    if entails(I, z3.And(z3.Or(z3.PrefixOf(z3.StringVal("{"), x), z3.PrefixOf(z3.StringVal("["), x)),
+                         z3.Or(z3.SuffixOf(z3.StringVal("}"), x), z3.SuffixOf(z3.StringVal("]"), x)))):
+        return s                          # delimited by brackets: no surrounding whitespace (lemma, audited)
+    r = strip_of(x)
+    I.assume(z3.Length(r) <= z3.Length(x))
+    # ground lemma (audited): a string that starts with '{' / '[' and ends with '}' / ']' has no surrounding whitespace
+    I.assume(z3.Implies(z3.And(z3.Or(z3.PrefixOf(z3.StringVal("{"), x), z3.PrefixOf(z3.StringVal("["), x)),
+                               z3.Or(z3.SuffixOf(z3.StringVal("}"), x), z3.SuffixOf(z3.StringVal("]"), x))), r == x))
     return V.VStr(r)
 
 
@@ -1079,6 +1229,20 @@ def m_str_rstrip(I, s, args, kwargs, node):
         pa = pystr(a)
         if ps is not None and pa is not None:
             return V.VStr(ps.rstrip(pa))
+        if pa is not None and len(pa) == 1 and entails(I, z3.Not(z3.SuffixOf(z3.StringVal(pa), Val.s(s)))):
+            return s                      # nothing to strip
+        if pa is not None and len(pa) == 1:
+            # a concatenation ending in a literal: strip the literal's tail syntactically
+            x = z3.simplify(Val.s(s))
+            parts = _concat_parts(x) if (z3.is_app(x) and x.decl().kind() == z3.Z3_OP_SEQ_CONCAT) else []
+            if parts and z3.is_string_value(parts[-1]):
+                tail = _pystr(parts[-1])
+                st = tail.rstrip(pa)
+                if st:
+                    return V.VStr(z3.simplify(z3.Concat(*(parts[:-1] + [z3.StringVal(st)]))))
+                rest = parts[:-1]
+                inner = rest[0] if len(rest) == 1 else z3.Concat(*rest)
+                return m_str_rstrip(I, V.VStr(z3.simplify(inner)), args, kwargs, node)
         r = rstrip_chars(Val.s(s), a)
         I.assume(z3.PrefixOf(r, Val.s(s)))
         if pa is not None and len(pa) == 1:
